@@ -121,7 +121,8 @@ func c13CheckErr(a *ChildArgs, ep, input string, err error, lexical bool, limit 
 		if okLoc {
 			// column may point one past the end of the line (end of input); tabs are not expanded here
 			// (the tokenizer counts a tab as more than one column: allow its documented tab width)
-			if sh.Col > len(lines[sh.Line-1])+2+8*strings.Count(lines[sh.Line-1], "\t") {
+			// (the tokenizer counts a tab as four columns: one byte plus three)
+			if sh.Col > len(lines[sh.Line-1])+2+3*strings.Count(lines[sh.Line-1], "\t") {
 				okLoc = false
 			}
 		}
@@ -339,6 +340,21 @@ func c13Child(a *ChildArgs) {
 						continue
 					}
 					c13Input(a, sql, "E2007")
+				}
+			}
+		}
+		// a lexical error at the very end of a line on which a compound-keyword look-ahead was rewound across tabs and
+		// comments (the location must still lie inside the line)
+		for _, opener := range []string{"NATURAL", "ORDER", "GROUP", "LEFT", "FULL", "CROSS", "GROUPING", "OUTER"} {
+			for _, sep := range []string{"\t/* pk */ ", "\t\t/**/\t", " /* a */\t/* b */\t", "\t"} {
+				for _, next := range []string{"x", "JOIN b ON", ", y"} {
+					if next == "JOIN b ON" && opener != "NATURAL" && opener != "ORDER" && opener != "GROUP" && opener != "GROUPING" {
+						continue // would complete the compound
+					}
+					for _, bad := range []string{"'", "\"abc", "\x01", "`q"} {
+						c13Input(a, "SELECT a.id, b.id\nFROM accounts AS a "+opener+sep+next+" WHERE b.x = "+bad, "")
+						c13Input(a, "SELECT a.id, b.id FROM accounts AS a "+opener+sep+next+" "+bad, "")
+					}
 				}
 			}
 		}
